@@ -26,6 +26,18 @@ def sh(cmd, cwd=None, timeout=900):
         return 124, "timeout"
 
 
+def kill_in(d):
+    """kill processes whose working directory is under this tool's own scratch worktree
+    (a daemon.go mutant once left its test daemon listening on the test suite's fixed port)"""
+    import glob, signal
+    for c in glob.glob("/proc/[0-9]*/cwd"):
+        try:
+            if os.readlink(c).split(" ")[0].startswith(d + "/") or os.readlink(c).split(" ")[0] == d:
+                os.kill(int(c.split("/")[2]), signal.SIGKILL)
+        except OSError:
+            pass
+
+
 sh(f"git -C /repo worktree remove --force {WT}")
 rc, out = sh(f"git -C /repo worktree add -q --detach {WT} HEAD")
 assert rc == 0, out
@@ -87,11 +99,14 @@ for (i, what, newline) in muts:
         # flaky timing tests: a second chance (not after a hang) before counting it as killed
         if time.time() - t0 > 30:
             res["killed_by_existing_tests"] += 1
+            kill_in(WT)
             continue
         rc2, out2 = sh(f"go test -vet=off -count=1 -timeout 40s {pk}", cwd=WT, timeout=200)
         if rc2 != 0:
             res["killed_by_existing_tests"] += 1
+            kill_in(WT)
             continue
+    kill_in(WT)
     rc, diff = sh(f"git diff -- {rel}", cwd=WT)
     open("/tmp/mut.diff", "w").write(diff)
     rc, st = sh("git -C /repo status --porcelain")
@@ -114,6 +129,7 @@ for (i, what, newline) in muts:
     print(f"line {i+1}: {what}: {'REPORTED ' + str([p for p,c in entry['checks'].items() if c['exit']==1]) if entry['reported'] else 'not reported ' + str({p:c['exit'] for p,c in entry['checks'].items()})} | {entry['original']} => {entry['mutated']}", flush=True)
     json.dump(res, open(outp, "w"), indent=1)
 open(os.path.join(WT, rel), "w").write(src)
+kill_in(WT)
 sh(f"git -C /repo worktree remove --force {WT}")
 res["reported"] = sum(1 for e in res["survivors"] if e["reported"])
 res["not_reported"] = sum(1 for e in res["survivors"] if not e["reported"])
